@@ -38,7 +38,12 @@ def cases(tier, rng):
         plan = random_plan(rng, menu, ents, L, rng.randint(3, 20))
         keys = [c % 4 for c in menu]
         raws = [raw(keys=[k for k in keys if rng.random() < .5]) for _ in range(L)]
-        yield (build_scenario(rng, menu, ents, plan, L, init, cfg=make_cfg(rng, menu, ents, L, nact=2, keyed=True), raws=raws), 'random')
+        cfg = make_cfg(rng, menu, ents, L, nact=2, keyed=True)
+        # an entity whose context_instance() binds nothing at all still holds the context
+        for c in menu:
+            if not ctx_shared(c) and rng.random() < .3:
+                cfg[(c, rng.choice(ents))] = spec([])
+        yield (build_scenario(rng, menu, ents, plan, L, init, cfg=cfg, raws=raws), 'random')
 
 def device_cases(tier, rng):
     """exclusive instances with per-entity gamepad settings (a specific pad, or any), joining and leaving in any order:
@@ -67,7 +72,7 @@ def nontrivial(case, out):
 STAGES = [dict(name='mirror', mode='app', coq='Check.C07c', cases=cases, nontrivial=nontrivial, shard=30,
                exhaustive={'thorough': False, 'quick': True},
                rule='two entities x {one exclusive, one shared type}: every sequence of length 2 (quick, 144) / 3 (thorough, 1728) over {insert, remove, despawn, spawn, rebuild, frame} x entity x type; '
-                    'random histories of 3-20 ops (direct and via Commands) over 2-4 types, 3 entities, 8-30 frames with key presses; exclusive instances with per-entity gamepad settings joining, leaving and being rebuilt next to two gamepads; after every step the lookup is compared with the component, '
+                    'random histories (some exclusive instances binding nothing) of 3-20 ops (direct and via Commands) over 2-4 types, 3 entities, 8-30 frames with key presses; exclusive instances with per-entity gamepad settings joining, leaving and being rebuilt next to two gamepads; after every step the lookup is compared with the component, '
                     'panics are captured, and what context_instance() was called for is compared with the join/leave history. non-trivial = some context is ever added; distinct = distinct scenario text')]
 CLAUSES = {1: 'ContextInstances::get::<C>(e).is_some() differs from World::get::<C>(e).is_some()', 2: 'context_instance() was (not) called where the join/leave/rebuild history requires',
            3: 'a newly built instance does not start from fresh data', 4: 'an operation changed the polled data of an instance it neither built nor removed (e.g. a shared instance when one of several holders left)',
